@@ -153,6 +153,10 @@ def translate_pattern(pattern: str, flags: int = 0, xsd_version: str = '1.0',
                 msg = "invalid quantifier {!r} at position {}: {!r}"
                 raise RegexError(msg.format(ch, pos, pattern))
 
+            if match.group(2) and int(match.group(2)) < int(match.group()[1:].split(',')[0]):
+                msg = "invalid quantifier {!r} at position {}: min is greater than max: {!r}"
+                raise RegexError(msg.format(match.group(), pos, pattern))
+
             if regex and regex[-1] in ('^', r'(?<!\n\Z)^', '$', r'$(?!\n\Z)'):
                 # ^{n} or ${n} allowed but useless. Invalid in Python re
                 # so encapsulate '^'/'$' inside a non-capturing group.
